@@ -207,15 +207,11 @@ PROPS = {
     "C15": dict(
         tables=[],
         determined=True,
-        technique="Lean 4 theorem by mutual structural induction: unordered_eq (greedy one-to-one matching) is sound w.r.t. an inductive 'equal up to permutation of entries at any depth' relation, and reflexive; exhaustive pairs of small duplicate-carrying objects against the model and a sorted-normal-form reference",
-        level_text=("PARTIAL proof (after the fix: commit that makes the matching one-to-one). Proved in Lean for all values: soundness — whenever unordered_eq holds, the two values are related by PermEq, the inductive relation "
-                    "'scalars equal, arrays pointwise in order, objects a one-to-one permutation of entries with equal keys and related values' (multiplicities count) — and unordered_eq is implied by ordinary equality; "
-                    "kernel-checked regressions for the repaired defect ({k:1,k:1,k:2} vs {k:1,k:2,k:2}). The converse (completeness of the greedy matching; needs that the relation is an equivalence one level down) and the "
-                    "equivalence-relation clause are stated (C15_full) but not yet proved; they are covered by comparing the real result with the model and with an independent reference (equality of recursively sorted normal forms) "
-                    "on all pairs of equal-size objects with <= 3 (thorough 4) entries over 2 keys x 3 values incl. a nested duplicate-carrying object, and on generated values with deep random shuffles (must be equal) and single-leaf mutations (must differ); symmetry and reflexivity are checked on every pair."),
+        technique='Lean 4 theorem: the model of unordered_eq (greedy one-to-one matching with matched flags) holds iff the values are equal up to permutation of object entries at every depth (inductive relation PermEq) — soundness and completeness, the latter from PermEq being an equivalence (proved through core List.Perm) — hence unordered_eq is an equivalence relation; model tied to the code by exhaustive differential execution on small objects with duplicates and generated nested values',
+        level_text=("FULL proof on the model. C15_exact: for all values, any nesting, any duplicate keys, ueq a b = true iff PermEq a b, where PermEq (Spec/PermEq.lean) says: scalars equal, arrays pointwise in order, objects related when the entries of one are a permutation of entries with equal keys and related values of the other, matched one-to-one (multiplicities count). Soundness by induction; completeness of the greedy matching (each entry of self takes the FIRST not-yet-paired entry of other with the same key and a related value — the code after the fix: commit for duplicate multiplicities) from PermEq being symmetric and transitive (PermEq.symm / PermEq.trans, proved by characterising PermEqM through core's List.Perm and a pointwise relation and moving permutations across it). C15_equivalence: unordered_eq is reflexive, symmetric and transitive; C15_of_eq: implied by ordinary equality. Tie to /repo: every pair of objects with <= 3 entries over 2 keys x 2 values (all multiplicity patterns) and generated nested values with shuffled / mutated copies are run through the real unordered_eq in both directions and compared with the model; an independent multiset-based oracle runs on the real code."),
         level_note="Trusted: Lean kernel; model validated by correspondence; sorted-normal-form reference in harness/src/ueq.rs; get_entries_with_index = ascending positions of the key (C06).",
         rule="request = pair of values; reply = unordered_eq. Non-trivial = values differ structurally; distinct request lines. distribution.equal_but_reordered counts accepted pairs that are not ==",
-        strength="partial: soundness proved; completeness tested exhaustively on small objects",
+        strength='full on the model: unordered_eq = equality up to permutation (both directions), equivalence relation; tie to the code by correspondence',
         trusted_base=COMMON_TRUST + ["harness normal-form reference"],
         assumptions=[],
     ),
